@@ -90,6 +90,34 @@ def runLoop (stations : List String) (early : Bool) (sessions : List EventCore.S
     ("events", jList (fun (e : Event) => Json.arr #[jI e.ts, jS e.kind.name, jS e.sess]) g.core.eventHist),
     ("ev_history", jList jS g.core.evHist), ("arrivals", jList jS g.net.arrivals)]
 
+/-- the composed model with `fully_charged` COMPUTED from an energy ledger (not supplied):
+    the harness' scheduler gives `kwh` per period to every plugged-in EV that is not yet fully
+    charged (`alt`: only in even periods; `zero`: never) -/
+def runLoopLedger (stations : List String) (early : Bool) (sessions : List EventCore.Session)
+    (req : Sess → Float) (kwh eps : Float) (mode : String) (cs : Nat → Nat) (limit : Nat) : Json := Id.run do
+  let cfg : EventCore.Cfg := { stations, sessions, recomputes := [], maxRecompute := none }
+  let ids := sessions.map (·.id)
+  let rate : Nat → Net → (Sess → Float) → Sess → Float := fun t _ d x =>
+    if mode == "zero" || (mode == "alt" && t % 2 == 1) then 0.0
+    else if eps < req x - d x then kwh else 0.0
+  let led := energyLedger req rate eps
+  let mut g : EventCore.CoreG (Net × (Sess → Float)) :=
+    EventCore.initG EventCore.heapQ cfg (net0 cfg early, fun _ => 0.0)
+  let mut outs : Array Json := #[]
+  let mut err : Json := Json.null
+  for _ in [0:limit] do
+    if !(EventCore.guard g.core) then break
+    match EventCore.bodyGP EventCore.heapQ (stochasticNetL cs) (stochasticPostL led) cfg (fun _ => none) (fun _ => none) g with
+    | (g', none) =>
+      g := g'
+      outs := outs.push (jSnap (g.net.1.snapshot ids))
+    | (_, some e) => err := jS e.name; break
+  return Json.mkObj [
+    ("err", err), ("periods", Json.arr outs), ("final", jSnap (g.net.1.snapshot ids)),
+    ("iterations", jN g.core.iter),
+    ("events", jList (fun (e : Event) => Json.arr #[jI e.ts, jS e.kind.name, jS e.sess]) g.core.eventHist),
+    ("delivered", jList (fun x => Json.arr #[jS x, jF (g.net.2 x)]) ids)]
+
 def handleRun (j : Json) : Except String Json := do
   let stations ← (← getArr j "stations").mapM (fun v => v.getStr?)
   let early ← getBool j "early"
@@ -122,7 +150,15 @@ def handleRun (j : Json) : Except String Json := do
   let coreSessions := sessions.map (fun x =>
     ({ id := x.id, station := ((st0s.lookup x.id).join).getD "", arrival := x.arrival,
        departure := x.departure } : EventCore.Session))
+  let ledger ← getOpt j "ledger" (fun v => pure v)
+  let ledgerOut ← match ledger with
+    | none => pure Json.null
+    | some v => do
+      let reqs ← (← getArr v "req").mapM (fun w => do pure ((← getStr w "id"), (← getF w "kwh")))
+      pure (runLoopLedger stations early coreSessions (fun x => (reqs.lookup x).getD 0.0)
+        (← getF v "per_period") (← getF v "eps") (← getStr v "mode") cs (n + 2))
   pure (Json.mkObj [
+    ("loop_ledger", ledgerOut),
     ("loop", runLoop stations early coreSessions full cs (n + 2)),
     ("err", err), ("steps", Json.arr outs), ("final", jSnap (s.snapshot ids)),
     ("arrivals", jList jS s.arrivals),
